@@ -677,6 +677,26 @@ def db_m_units_swapped(kind):
     return f
 
 
+def db_m_units_other_qualifier(spec, wb, rng, fw):
+    """the Units cell keeps its unit word but states another time scale: 'Rate (per year)' -> 'Rate (per fortnight)'"""
+    cells = []
+    for ws in wb.worksheets:
+        if ws.title in ("Population Definitions", "Transfers", "Interactions"):
+            continue
+        for r in range(1, ws.max_row + 1):
+            if ws.cell(r, 1).value in spec["pops"]:
+                for c in range(2, 7):
+                    u = ws.cell(r, c).value
+                    if isinstance(u, str) and "(" in u and u.strip().endswith(")") and u.strip().lower().split(" ")[0] in ("rate", "probability", "number", "duration"):
+                        cells.append((ws, r, c, u))
+    if not cells:
+        return False
+    ws, r, c, u = cells[int(rng.integers(0, len(cells)))]
+    word = u.strip().split(" ")[0]
+    ws.cell(r, c).value = "%s (%s)" % (word, "fortnights" if word.lower() == "duration" else "per fortnight")
+    return True
+
+
 def db_m_missing_pop_row(spec, wb, rng, fw):
     if len(spec["pops"]) < 2:
         return False
@@ -762,6 +782,7 @@ DB_MUTATIONS = [
     ("databook:delete-required-table-sheet", "reject", db_m_delete_tdve_sheet),
     ("databook:blank-row-values", "reject", db_m_blank_row_values),
     ("databook:unit-mismatch", "reject", db_m_wrong_units),
+    ("databook:unit-mismatch[same unit word, other time scale]", "reject", db_m_units_other_qualifier),
     ("databook:unit-mismatch[compartment,other valid unit]", "reject", db_m_units_swapped("compartment")),
     ("databook:unit-mismatch[characteristic,other valid unit]", "reject", db_m_units_swapped("characteristic")),
     ("databook:unit-mismatch[parameter,other valid unit]", "reject", db_m_units_swapped("parameter")),
